@@ -106,16 +106,20 @@ def symRun (B A : List UInt8) : Bytes → Bytes × Bytes
     if B.contains c || A.contains c then ([], c :: cs)
     else let r := symRun B A cs; (c :: r.1, r.2)
 
+/-- the tail of one match: after the optional cut-before byte `pre` and the run `r.1`, take one
+cut-after byte if it is next -/
+def symClose (A : List UInt8) (pre : Bytes) (r : Bytes × Bytes) : Bytes × Bytes :=
+  match r.2 with
+  | c :: cs => if A.contains c then (pre ++ r.1 ++ [c], cs) else (pre ++ r.1, r.2)
+  | [] => (pre ++ r.1, [])
+
 /-- one match of the pattern at the head of the input: `(group(0), rest)` -/
 def symTok (B A : List UInt8) (d : Bytes) : Bytes × Bytes :=
   let p : Bytes × Bytes :=
     match d with
     | c :: cs => if B.contains c then ([c], cs) else ([], d)
     | [] => ([], [])
-  let r := symRun B A p.2
-  match r.2 with
-  | c :: cs => if A.contains c then (p.1 ++ r.1 ++ [c], cs) else (p.1 ++ r.1, r.2)
-  | [] => (p.1 ++ r.1, [])
+  symClose A p.1 (symRun B A p.2)
 
 /-- `finditer`, keeping non-empty matches; `fuel` bounds the number of matches -/
 def symSplit (B A : List UInt8) : Nat → Bytes → List Bytes
